@@ -133,12 +133,12 @@ class Run:
         default_inv = {"MC": ["Holds", "WellFormedInv", "DirtyInv", "SelfInv", "Emit"]}
         inv = job.get("invariants", default_inv.get(module, ["Emit"]))
         with open(cfg, "w") as f:
-            f.write("SPECIFICATION Spec\nCONSTANTS\n")
+            f.write("SPECIFICATION Spec\n" + ("" if job.get("plain") else "CONSTANTS\n"))
             if module == "MC":
                 f.write("  Model = \"%s\"\n  Geoms <- %s\n  TextLen = %d\n  SgrMax = %d\n  ModeMax = %d\n" %
                         (job["model"], job["geoms"][tier], job.get("textlen", {}).get(tier, 2),
                          job.get("sgrmax", {}).get(tier, 110), job.get("modemax", {}).get(tier, 40)))
-            if not job.get("simulate"):
+            if not job.get("simulate") and not job.get("plain"):
                 f.write("  EmitVectors = %s\n" % ("TRUE" if job.get("emit", True) else "FALSE"))
             for k, v in job.get("constants", {}).items():
                 val = v[tier] if isinstance(v, dict) else v
